@@ -4,6 +4,7 @@ import (
 	"encoding/json"
 	"fmt"
 	"strings"
+	"time"
 
 	"pgregory.net/rapid"
 
@@ -109,9 +110,15 @@ func runVar(c VarCase) ev.Verdict {
 		ddpFrom = "var"
 	}
 
-	pipe := sim.NewPipe(&sim.CLI{Prompt: func() string { return "x>" }})
+	// the device shows a prompt of the level the merged definition holds
+	prompt := fmt.Sprintf("%s%dq>", levelsFrom, c.Seed)
+	cli := &sim.CLI{NL: "\n", Prompt: func() string { return prompt }, OnLine: func(string) (string, bool) { return "", false }}
+	pipe := sim.NewPipe(cli)
 
-	p, err := platform.NewPlatformVariant([]byte(def), "v1", "sim", options.WithCustomTransport(pipe))
+	defer pipe.Release()
+
+	p, err := platform.NewPlatformVariant([]byte(def), "v1", "sim", options.WithCustomTransport(pipe),
+		options.WithReadDelay(50*time.Microsecond), options.WithTimeoutOps(20*time.Second))
 	if err != nil {
 		return ev.Fail("NewPlatformVariant: %v\n%s", err, def)
 	}
@@ -165,8 +172,8 @@ func runVar(c VarCase) ev.Verdict {
 	}
 
 	// ... and yields the driver type it declares
-	_, gerr := p.GetGenericDriver()
-	_, nerr := p.GetNetworkDriver()
+	gd, gerr := p.GetGenericDriver()
+	nd, nerr := p.GetNetworkDriver()
 
 	if wantType == "generic" && gerr != nil {
 		return ev.Fail("variant declares a generic driver: GetGenericDriver error %v", gerr)
@@ -174,6 +181,63 @@ func runVar(c VarCase) ev.Verdict {
 
 	if wantType == "network" && nerr != nil {
 		return ev.Fail("platform declares a network driver: GetNetworkDriver error %v", nerr)
+	}
+
+	// ... and the driver it yields is built from the merged sections, not only the struct
+	var (
+		failedWhen []string
+		open       func() error
+		closeFn    func() error
+	)
+
+	if wantType == "network" {
+		failedWhen, open, closeFn = nd.FailedWhenContains, nd.Open, nd.Close
+
+		if nd.DefaultDesiredPriv != ddpFrom+"lvl" {
+			return ev.Fail("driver's default desired level %q, want %q (variant defines %v)", nd.DefaultDesiredPriv, ddpFrom+"lvl", c.Sections)
+		}
+
+		if _, ok := nd.PrivilegeLevels[levelsFrom+"lvl"]; !ok || len(nd.PrivilegeLevels) != 1 {
+			return ev.Fail("driver's privilege levels %v, want only %q (variant defines %v)", nd.PrivilegeLevels, levelsFrom+"lvl", c.Sections)
+		}
+	} else {
+		failedWhen, open, closeFn = gd.FailedWhenContains, gd.Open, gd.Close
+	}
+
+	if want := checks["failed-when-contains"]; len(failedWhen) != 1 || failedWhen[0] != want {
+		return ev.Fail("driver's failure strings %q, want [%q] (variant defines %v)", failedWhen, want, c.Sections)
+	}
+
+	// the default level of the driver must be the level the device is at for the on-open
+	// send-command to need no transition
+	if wantType == "generic" || levelsFrom == ddpFrom {
+		if err = open(); err != nil {
+			return ev.Fail("Open of the variant's driver: %v\n%s", err, def)
+		}
+
+		if err = closeFn(); err != nil {
+			return ev.Fail("Close of the variant's driver: %v", err)
+		}
+
+		wr := string(pipe.Written())
+
+		steps := []string{"on-open", "on-close"}
+		if wantType == "network" {
+			steps = append(steps, "network-on-open", "network-on-close")
+		}
+
+		for _, sect := range steps {
+			want := checks[sect]
+			other := strings.Replace(want, who(sect), map[string]string{"var": "base", "base": "var"}[who(sect)], 1)
+
+			if !strings.Contains(wr, want) {
+				return ev.Fail("section %s: open/close of the variant's driver never wrote %q (variant defines %v): device received %q", sect, want, c.Sections, wr)
+			}
+
+			if strings.Contains(wr, other) {
+				return ev.Fail("section %s: open/close of the variant's driver wrote %q (variant defines %v): device received %q", sect, other, c.Sections, wr)
+			}
+		}
 	}
 
 	return ev.Verdict{OK: true, NonTrivial: len(c.Sections) > 0 && len(c.Sections) < len(allSections), Classes: []string{fmt.Sprintf("sections=%d", len(c.Sections))}}
